@@ -126,9 +126,19 @@ def main():
     if not ok:
         corr_errors.append('model files do not build; correspondence not evaluated:\n' + blog[-1500:])
     if not corr_errors:
-        terms = [mod.coq_term(c, o) for c, o in zip(cases, obs)]
-        bad, nbad, corr_errors = core.run_shards(pid, mod.coq_preamble(), mod.CTYPE, mod.CHECKER, terms,
-                                                 shard=getattr(mod, 'SHARD', 300))
+        # an observation that cannot even be written as a term of the model's language (e.g. an object that is not
+        # a mux event reached the subscriber) is a disagreement, never a crash of the check
+        terms, where, unprintable = [], [], []
+        for ci, (c, o) in enumerate(zip(cases, obs)):
+            try:
+                terms.append(mod.coq_term(c, o))
+                where.append(ci)
+            except Exception as e:
+                unprintable.append((ci, '%s: %s' % (type(e).__name__, str(e)[:120])))
+        bad_sh, nbad, corr_errors = core.run_shards(pid, mod.coq_preamble(), mod.CTYPE, mod.CHECKER, terms,
+                                                    shard=getattr(mod, 'SHARD', 300))
+        bad = set(where[j] for j in bad_sh) | set(ci for ci, _ in unprintable)
+        nbad += len(unprintable)
     core.log('[%s] correspondence: %d cases (%d corpus), %d disagreements, %d evaluation errors; '
              'oracle failures: %d' % (pid, len(cases), n_corpus, nbad, len(corr_errors), len(fails)))
 
